@@ -19,3 +19,31 @@ s.ens_all("only-counter", ("C01", "C02", "C03", "C04", "C05"), lambda c, A, R: z
     same_tables(c, A.snap0["H"], R.snap["H"]), A.snap0["H"].neth == R.snap["H"].neth, A.snap0["H"].netv == R.snap["H"].netv))
 s.ens_all("counter-monotone", ("C01", "C02", "C03", "C04"), lambda c, A, R: R.snap["H"].uid >= A.snap0["H"].uid)
 s.modifies = ["H"]
+
+
+# ------------------------------------------------------------------ IDDict: the table type of all networks
+# The executor's model of an IDDict table (IDNotFound on a missing key, XGIError on key None,
+# TypeError on an unhashable key) is what these three methods are verified to implement on top of
+# plain dict semantics (KeyError / TypeError).
+ID = "xgi/utils/utilities.py::IDDict."
+IDP = ("C01", "C02", "C03", "C05")
+
+
+def _keys(A):
+    return A.v["self"].keys
+
+
+s = contract(ID + "__getitem__", [("self", "pydict"), ("item", "val")])
+s.result = "val"
+s.ens("returns-stored-value", IDP, lambda c, A, R: z3.And(sel(_keys(A), A.item.term), R.result.term == sel(A.v["self"].fields["v"], A.item.term)))
+s.exc("IDNotFound", "missing-key", IDP, lambda c, A, R: z3.And(c.hashable(A.item.term), z3.Not(sel(_keys(A), A.item.term))))
+s.exc("TypeError", "unhashable-key", IDP, lambda c, A, R: z3.Not(c.hashable(A.item.term)))
+
+s = contract(ID + "__delitem__", [("self", "pydict"), ("item", "val")])
+s.exc("IDNotFound", "missing-key", IDP, lambda c, A, R: z3.And(c.hashable(A.item.term), z3.Not(sel(_keys(A), A.item.term))))
+s.exc("TypeError", "unhashable-key", IDP, lambda c, A, R: z3.Not(c.hashable(A.item.term)))
+
+s = contract(ID + "__setitem__", [("self", "pydict"), ("item", "val"), ("value", "val")])
+s.result = "val"
+s.exc("XGIError", "none-key", IDP, lambda c, A, R: A.item.term == c.NONE)
+s.exc("TypeError", "unhashable-key", IDP, lambda c, A, R: z3.And(A.item.term != c.NONE, z3.Not(c.hashable(A.item.term))))
